@@ -17,7 +17,7 @@ import itertools
 
 DEFAULT_FEAT = dict(
     subtypes=True, constants=True, neg=True, equality=True, numeric=True, when=True, forall_eff=True,
-    or_pre=False, forall_pre=False, bare_pre=False, nested_numeric=False, nested_cond=False, join_names=False, tiny_offsets=False, dense_quant=False, implicit_parent_types=False, many_constants=False, object_params=False,   # nested / quantified / unwrapped preconditions
+    or_pre=False, forall_pre=False, bare_pre=False, nested_numeric=False, nested_cond=False, join_names=False, tiny_offsets=False, dense_quant=False, implicit_parent_types=False, many_constants=False, object_params=False, agentless_action=False,   # nested / quantified / unwrapped preconditions
     cond_numeric=True,                       # numeric comparisons inside when/forall conditions
     child_first_types=False,                 # D10 finding profile
     repeated_call_objects=True, long_names=False,
@@ -115,6 +115,10 @@ def gen_domain(t, feat=None, multi_agent=False):
             "bare_pre": bool(f.get("bare_pre")) and t.draw(2) == 0,
             "eff": gen_effects(t, D, params, f),
         }
+    if multi_agent and f.get("agentless_action") and len(acts) < len(anames):
+        # an action nobody 'executes': no parameters at all (it speaks about nullary atoms, nullary fluents and constants)
+        acts["all-" + anames[len(acts)]] = {"params": [], "pre": gen_conj(t, D, [], f, top=True), "bare_pre": False,
+                                          "eff": gen_effects(t, D, [], f)}
     D["actions"] = acts
     D["implicit_types"] = set()
     if f.get("implicit_parent_types"):
